@@ -89,6 +89,18 @@ CHECKS = {
         technique="information-flow / non-interference lint + CFG path search from each mode test",
         design="4/C07",
     ),
+    "C09": dict(
+        category="other",
+        text="S1/S2 def-use on the abstract trace of the stream walker: the response decode receives `.commandCode` of the "
+             "command object decoded in the same iteration and `is_parameter_encryption(<that command>, for_response=True) or "
+             "None`; S3 is_parameter_encryption reads encrypt for responses and decrypt for commands over every session, both "
+             "being TPMA_SESSION masks in L; S4 command then response at the stream's root path, mode threaded, no own "
+             "termination; S5 separate_events cuts exactly at root-path MarshalEvents and events_to_objs alternates and carries "
+             "the command code into exactly the next message. Equality of concatenated event lists is not decided.",
+        note="trusted: CPython ast; C01-W5 (child paths extend the parent) for the unambiguity of the cut.",
+        technique="def-use on abstract traces (partial evaluation) + shape rules on the pairing helpers",
+        design="4/C09",
+    ),
     "C10": dict(
         category="other",
         text="T1: pump typestate - next(source) is executed only while no unconsumed byte is held, send(byte) only with a "
@@ -100,6 +112,18 @@ CHECKS = {
         note="trusted: CPython ast; Python iterator/generator protocol. pcapng.marshal materialises its input by design (documented in the code) and is outside T2.",
         technique="CFG + typestate abstract interpretation of the pump, who-may-use rules on iterator/buffer variables",
         design="4/C10",
+    ),
+    "C12": dict(
+        category="other",
+        text="P1 effect analysis of all functions reachable from the decode / conversion entry points (call graph with "
+             "method-name resolution, ~70 functions): no global/nonlocal, no attribute/item store or mutating call whose "
+             "receiver is a module-level or class-level object; P2 every memoising decorator in reachable code is unbounded or "
+             "has capacity >= the key space from L (234 parameter areas); P3 no mutable defaults, no module-level "
+             "generators/iterators. Together with Python's determinism this is the property's structural core.",
+        note="trusted: CPython ast; call resolution by name over repo classes (over-approximation); aliasing of module-level "
+             "objects through locals is not tracked (a store via an alias of a global would be missed).",
+        technique="call-graph reachability + effect (purity) analysis + memoisation capacity check against the static layout model",
+        design="4/C12",
     ),
     "C13": dict(
         category="other",
